@@ -655,7 +655,7 @@ theorem bin_mix_int (hm : isIrreducible m = true) (a : ℕ) (x : ℤ) :
   · apply except_toList_inj; rw [toList_truediv h0, toList_truediv h0, toList_fromInt, toList_ofInt h0]; exact e5
 
 example : isIrreducible 283 = true ∧ BinF.mul 283 87 131 = 193 ∧ BinF.lshift 283 128 1 = .ok 27 ∧
-    BinF.rshift 283 27 1 = .ok 128 ∧ BinF.reciprocal 283 0 = .error .zeroDivision ∧ BRed 283 255 := by
+    BinF.rshift 283 27 1 = .ok 128 ∧ BinF.reciprocal 283 0 = .error .zeroDivision ∧ bitLen 255 < bitLen 283 := by
   decide +kernel
 
 end bin
